@@ -17,11 +17,12 @@
     vector and between two vectors; `reserve`/`reserve_exact`/`shrink_to_fit`/`shrink_to`; raw-parts round
     trips; `set_len` over freshly written spare capacity; the caller dropping the values it holds;
     dropping a vector.
-  `push`/`insert` also take lazy clones of another vector's elements. The only restrictions (`Core`) are on
-  *arguments*: the replacement values of a `splice` are owning wrappers or raw values, and the items of a drain/splice and the
-  handles go to the sinks listed above (not `lazy_clone().push` ×k, not `swap` through a handle, drained
-  items are not moved into another vector). For those the single-step theorems of C01/C06/C09 and the
-  differential correspondence apply. `Valid` states what the type system, the borrow checker and the
+  `push`/`insert` also take lazy clones of another vector's elements; removal handles go to every sink;
+  the items of a drain/splice go to every sink but `swap` (dropped, forgotten, downcast, inspected, moved
+  into another vector by `push`/`insert`, lazily cloned ×k into another vector). The only restrictions are:
+  the replacement values of a `splice` are owning wrappers or raw values (`Core`), and drained items are not
+  value-swapped (`Valid`). For those the single-step theorems of
+  C06/C09/C13 and the differential correspondence apply. `Valid` states what the type system, the borrow checker and the
   contracts of the script's own `unsafe` calls guarantee about a step (see its doc comment).
 
   For every reachable world:
@@ -33,7 +34,7 @@
       reads or writes outside the capacity, never reads an uninitialised / moved-out slot, never uses
       a stale element pointer (C05: the model's `ub` outcomes).
 -/
-import AnyVecModel.Proofs.HistSwap
+import AnyVecModel.Proofs.HistItems
 namespace AnyVec
 namespace Hist
 open World
@@ -67,7 +68,7 @@ def Core : Op → Prop
   | .dcvec _ _ => True
   | .probe _ => True
   | .views _ => True
-  | .drain _ _ _ _ eats _ => ∀ p ∈ eats, p.2.Core
+  | .drain _ _ _ _ _ _ => True
   | .clone _ => True
   | .lazyDc _ _ _ _ => True
   | .iterClone _ _ _ => True
@@ -79,7 +80,7 @@ def Core : Op → Prop
   | .setLenSpare _ _ _ => True
   | .rawrt _ => True
   | .rawparts _ => True
-  | .splice _ _ _ _ repl _ eats _ => (∀ r ∈ repl, r.Plain) ∧ (∀ p ∈ eats, p.2.Core)
+  | .splice _ _ _ _ repl _ _ _ => ∀ r ∈ repl, r.Plain
 
 def liveVec (vs : List VecSt) (v : Nat) : Prop := ∃ d, vs[v]? = some d ∧ d.live = true
 def liveCloneable (vs : List VecSt) (v : Nat) : Prop :=
@@ -116,7 +117,7 @@ def Valid (vs : List VecSt) : Op → Prop
   | .dcvec v _ => liveVec vs v
   | .probe v => liveVec vs v
   | .views v => liveVec vs v
-  | .drain v _ _ _ _ _ => liveVec vs v
+  | .drain v _ _ typed eats _ => liveVec vs v ∧ ∀ p ∈ eats, p.2.ValidItem vs v typed
   | .clone v => liveCloneable vs v
   | .lazyDc v _ _ _ => liveVec vs v
   | .iterClone v _ _ => liveVec vs v
@@ -128,7 +129,7 @@ def Valid (vs : List VecSt) : Op → Prop
   | .setLenSpare v k _ => ∃ d, vs[v]? = some d ∧ d.live = true ∧ d.len + k ≤ d.cap
   | .rawrt v => ∃ d, vs[v]? = some d ∧ d.live = true ∧ rawBackend d.bk
   | .rawparts v => ∃ d, vs[v]? = some d ∧ d.live = true ∧ rawBackend d.bk
-  | .splice v _ _ _ _ _ _ _ => liveVec vs v
+  | .splice v _ _ typed _ _ eats _ => liveVec vs v ∧ ∀ p ∈ eats, p.2.ValidItem vs v typed
   | _ => True
 
 /-- one core step of the library from any world satisfying the invariant, under any fault state -/
@@ -177,9 +178,9 @@ theorem step_inv (cfg : Cfg) (op : Op) (w : World) (h : w.Inv) (hc : Core op) (h
   | probe v => obtain ⟨d, h1, h2⟩ := hv; exact step_look_inv cfg w v d h h1 h2 _ (Or.inr (Or.inr (Or.inl rfl)))
   | views v => obtain ⟨d, h1, h2⟩ := hv; exact step_look_inv cfg w v d h h1 h2 _ (Or.inr (Or.inr (Or.inr rfl)))
   | drain v lo hi typed eats fin =>
-    obtain ⟨d, h1, h2⟩ := hv; exact step_drain_inv cfg w v lo hi typed eats fin d h h1 h2 hc
+    obtain ⟨⟨d, h1, h2⟩, h3⟩ := hv; exact step_drain_v cfg w v lo hi typed eats fin d h h1 h2 h3
   | splice v lo hi typed repl claim eats fin =>
-    obtain ⟨d, h1, h2⟩ := hv; exact step_splice_inv cfg w v lo hi typed repl claim eats fin d h h1 h2 hc.1 hc.2
+    obtain ⟨⟨d, h1, h2⟩, h3⟩ := hv; exact step_splice_v cfg w v lo hi typed repl claim eats fin d h h1 h2 hc h3
   | clone v => obtain ⟨d, h1, h2, h3⟩ := hv; exact step_clone_inv cfg w v d h h1 h2 h3
   | wswap v i ty => obtain ⟨d, h1, h2⟩ := hv; exact step_wswap_inv cfg w v i ty d h h1 h2
   | tassign v i => obtain ⟨d, h1, h2⟩ := hv; exact step_tassign_inv cfg w v i d h h1 h2
